@@ -752,6 +752,9 @@ const LABEL_PARTS: &[&str] = &[
     "_", "__x", "yx", "tmp", "val", "cnt", "sub", "Sub", "string", "p", "w1", "again", "skip",
     // names other assemblers give to registers or reserve: plain labels here, with or without any feature flag
     "sp", "SP", "Sp", "fp", "lr", "pc", "PC", "psr", "cc", "ra", "zero", "at", "gp", "stack", "Stack", "main", "start", "org", "equ", "byte", "word", "include", "macro",
+    // mnemonics of other instruction sets and of possible extensions: plain labels here
+    "nop", "NOP", "Nop", "mov", "xor", "or", "mul", "div", "cmp", "inc", "dec", "neg", "clr", "load", "store", "print", "db", "dw",
+    "dup", "proc", "endp", "_start", "_main", "exit", "syscall", "int", "iret", "jz", "jnz", "bra", "beq",
 ];
 
 pub fn gen_label(rng: &mut Rng, taken: &[String]) -> String {
